@@ -2,7 +2,7 @@
 """sweep.py <operator>: operator-based mutation sweep over /repo's non-test sources, analysed as
 overlays (the tree is not modified, nothing is executed). Prints, per mutated site, which
 properties report. Sites no check reports are candidates for review (gap or equivalent mutant).
-operators: fatal2error, reterr2nil, dropcheck, regex (pattern literals: anchors, quantifiers, lazy/greedy)"""
+operators: fatal2error, reterr2nil, dropcheck, delstmt (delete a one-line call or assignment statement; mutants that no longer type-check are dropped), regex (pattern literals: anchors, quantifiers, lazy/greedy)"""
 import sys,re,os,subprocess,glob,difflib
 from concurrent.futures import ThreadPoolExecutor
 op=sys.argv[1]
@@ -17,6 +17,7 @@ for f in sorted(files):
         if op=='fatal2error' and re.search(r'logger\.(Fatal|Panic)\(\)',l): new=re.sub(r'logger\.(Fatal|Panic)\(\)','logger.Error()',l)
         if op=='reterr2nil' and re.match(r'^\s*return (.*, )?err$',l): new=re.sub(r'err$','nil',l)
         if op=='dropcheck' and re.match(r'^\s*if err != nil \{$',l): new=l.replace('err != nil','err != nil && false')
+        if op=='delstmt' and re.match(r'^\t+[A-Za-z_][\w\.\[\]]*(\(.*\)|\s*=\s*.+|\+\+|\s*\+=\s*.+)$',l) and not re.match(r'^\t+(return|break|continue|defer|go|case|default|logger\.|log\.)\b',l) and ':=' not in l: new='//'+l
         news=[new] if new is not None and new!=l else []
         if op=='regex':
             m=re.search(r'MustCompile\(`([^`]*)`\)',l)
@@ -47,6 +48,7 @@ def run(s):
     o=subprocess.run(['/verif/bin/crsverif','-property','ALL','-no-evidence','-patch',s[3]],capture_output=True,text=True).stdout
     reps=re.findall(r'^PROP (\S+) REPORTS',o,re.M)
     if 'SKIPPED' in o: reps=['SKIPPED']
+    if not reps and 'PROP C02 ok' not in o: reps=['BROKEN']
     first=re.search(r'^\s+\[(violated|undecided|floor)\] (\S+)',o,re.M)
     return s,reps,(first.group(2) if first else '')
 with ThreadPoolExecutor(6) as ex:
@@ -55,4 +57,6 @@ miss=0
 for s,reps,first in res:
     print(f"{s[0]}:{s[1]} [{' '.join(reps) or 'NONE'}] {first}  | {s[2][:90]}")
     if not reps or reps==['SKIPPED']: miss+=1
-print(f"SUMMARY operator={op} sites={len(res)} reported={len(res)-miss} silent={miss}")
+    if reps==['BROKEN']: broken=globals().get('broken',0)+1; globals()['broken']=broken
+b=globals().get('broken',0)
+print(f"SUMMARY operator={op} sites={len(res)} do_not_typecheck={b} reported={len(res)-miss-b} silent={miss}")
